@@ -48,6 +48,19 @@ def _structural():
             ob(fn_name + '.empty_sequence_renders_else_and_returns', bool(ok),
                'an empty sequence (sequence[0] raises IndexError) renders the else section (or nothing) and returns before '
                'any element is rendered')
+        # the per-element variables (sequence-item, -key, -number, -even, ..., first-x, last-x, sequence-var-x) are computed on
+        # demand from the element at the current index; __getitem__ looks in the variable dictionary FIRST, so a renderer that
+        # stored one of those names there would serve that stored (possibly stale) value instead.  The only names the renderers
+        # store are the bookkeeping ones:
+        allowed = {'sequence-index', 'sequence-start', 'sequence-end', 'mapping', 'previous-sequence', 'previous-sequence-start-index',
+                   'previous-sequence-end-index', 'previous-sequence-size', 'next-sequence', 'next-sequence-start-index',
+                   'next-sequence-end-index', 'next-sequence-size', 'sequence-step-size', 'sequence-step-overlap', 'sequence-step-start',
+                   'sequence-step-end', 'sequence-step-start-index', 'sequence-step-end-index', 'sequence-step-orphan'}
+        stored = sorted({n.slice.value for n in ast.walk(node) if isinstance(n, ast.Subscript) and isinstance(n.ctx, ast.Store)
+                         and isinstance(n.slice, ast.Constant) and isinstance(n.slice.value, str)} - allowed)
+        ob(fn_name + '.only_bookkeeping_names_are_stored', not stored,
+           'the renderer stores only index / flag / batch bookkeeping names in the variable dictionary; the per-element variables '
+           'stay computed from the current element (stored as well: %s)' % stored)
         # the prefix is only handed to the two helpers that implement aliasing
         uses = []
         for n in ast.walk(node):
